@@ -5,6 +5,6 @@ cd /repo || exit 2
 git diff --quiet || { echo "/repo is dirty"; exit 2; }
 if [[ $src == rev:* ]]; then git show ${src#rev:} | git apply -R || exit 2; else git apply "$src" || exit 2; fi
 for c in "$@"; do
-  (cd /verif && timeout 1500 ./check $c --tier ${TIER:-quick} > /tmp/sens_$c.log 2>&1; rc=$?; echo "$c rc=$rc $(grep -c '^VIOLATION' /tmp/sens_$c.log) violations: $(grep 'signature=' /tmp/sens_$c.log | head -3 | cut -c1-160 | tr '\n' '|')")
+  (cd /verif && VERIF_OUT=/tmp/sensout timeout 1500 ./check $c --tier ${TIER:-quick} > /tmp/sens_$c.log 2>&1; rc=$?; echo "$c rc=$rc $(grep -c '^VIOLATION' /tmp/sens_$c.log) violations: $(grep 'signature=' /tmp/sens_$c.log | head -3 | cut -c1-160 | tr '\n' '|')")
 done
 git -C /repo checkout -- .
